@@ -45,6 +45,18 @@ class Dm14Query:
         self.exception_queue = queue.Queue()
         self.user_level = user_level
 
+    def _forget_previous_query(self) -> None:
+        """
+        Drop what a previous (possibly failed) query left behind: its subscriptions and unconsumed queue entries
+        """
+        self._ca.unsubscribe(self._parse_dm15)
+        self._ca.unsubscribe(self._parse_dm16)
+        for _ in range(self.data_queue.qsize()):
+            self.data_queue.get(block=False)
+        for _ in range(self.exception_queue.qsize()):
+            self.exception_queue.get(block=False)
+        self.mem_data = None
+
     def _wait_for_data(self) -> None:
         """
         Determines whether to send data or wait to receive data based on the command type. If the command is a write command, then the data is sent.
@@ -237,6 +249,7 @@ class Dm14Query:
         self.signed = signed
         self.return_raw_bytes = return_raw_bytes
         self.command = Command.READ
+        self._forget_previous_query()
         self._ca.subscribe(self._parse_dm15)
         self._send_dm14(self.user_level)
         self.state = QueryState.WAIT_FOR_SEED
@@ -283,6 +296,7 @@ class Dm14Query:
         self.command = Command.WRITE
         self.bytes = self._values_to_bytes(values)
         self.object_count = len(values)
+        self._forget_previous_query()
         self._ca.subscribe(self._parse_dm15)
         self._send_dm14(self.user_level)
         self.state = QueryState.WAIT_FOR_SEED
